@@ -1407,10 +1407,10 @@ def main():
     run.finish()
 
 
-N_SUB = (110, 3000)
-N_DAILY = (25, 800)
-N_BILL = (70, 2000)
-N_GRAN = (150, 3000)
+N_SUB = (110, 2000)
+N_DAILY = (25, 500)
+N_BILL = (70, 1200)
+N_GRAN = (150, 2000)
 
 
 def warm_imports():
